@@ -34,6 +34,17 @@ def _region_counts(region, y, x):
 def gen_problem(rng, tier):
     h, w, kmax = rng.choice(_SHAPES)
     k = rng.randint(1, kmax)
+    return _gen(rng, h, w, k)
+
+
+def extra_program_problems(rng):
+    """Larger boards for the program correspondence only (nothing is enumerated there): one non-square medium board and two
+    with more than 256 cells (a tall and a wide one); one compass per 8 to 16 cells."""
+    from . import _loop
+    return [_gen(rng, h, w, rng.randint(h * w // 16, h * w // 8)) for h, w in _loop.big_shapes(rng)]
+
+
+def _gen(rng, h, w, k):
     cells = [(y, x) for y in range(h) for x in range(w)]
     rng.shuffle(cells)
     if rng.random() < 0.3:
